@@ -8,6 +8,9 @@ assignment to the controlled attribute (`x.demand = e`, `x.demand += e`, `x.dema
 comparisons < > <= >=; and chains of `s.replace(a, b)` calls with one-character `a`.
 Anything else makes the translator emit `untranslatable` markers, which break the equivalence
 theorems (a broken proof obligation, handled by the protocol of DESIGN §5.1).
+
+Further down: translators for whole classes - the composite pools (C07), DemandSwitch / RangeSelector /
+Stepwise (C08), Standardiser (C06) - each with its own generated file.
 """
 import ast
 import inspect
@@ -346,6 +349,444 @@ def render():
     return "\n".join(out)
 
 
+# --------------------------------------------------------------------------- composites (C07)
+REL_COMPOSITE = os.path.join("CobaldVerif", "Generated", "SrcComposite.lean")
+CHILD_FIELDS = {"supply": "supply", "utilisation": "util", "allocation": "alloc", "demand": "demand"}
+
+
+class CompositeTr:
+    """Expressions of the composite pools -> Lean terms over `cs : List Child`, `a : Attr` (the weighting
+    attribute) and `D : Rat` (the written value).  `sum(E for x in self.children)` becomes `sumOf (fun x => E) cs`,
+    `getattr(x, self._weight)` becomes `x.get a`, `len(self.children)` becomes the length, properties of `self`
+    (`_total_weight`, `supply`, `_undefined_fitness()`) are translated in place from their own source.
+    `try: <X> except ZeroDivisionError: <Y>` becomes `if d = 0 then Y else X` for the divisor `d` of X (exactly
+    one division may occur in X): Python's exact numbers raise ZeroDivisionError iff the divisor is zero."""
+
+    def __init__(self, cls):
+        self.cls = cls
+        self.divisors = []
+
+    def prop(self, name):
+        member = inspect.getattr_static(self.cls, name)
+        fn = member.fget if isinstance(member, property) else member
+        tree = ast.parse(textwrap.dedent(inspect.getsource(fn))).body[0]
+        stmts = [st for st in tree.body if not (isinstance(st, ast.Expr) and isinstance(st.value, ast.Constant))]
+        return stmts
+
+    def value_of(self, name, env):
+        """a property / helper of self whose body is `return E` or try-return / except ZeroDivisionError-return"""
+        return self.returning(self.prop(name), env)
+
+    def returning(self, stmts, env):
+        if len(stmts) == 1 and isinstance(stmts[0], ast.Return):
+            return self.expr(stmts[0].value, env)
+        if len(stmts) == 1 and isinstance(stmts[0], ast.Try):
+            return self.guarded(stmts[0], env, lambda body: self.returning(body, env))
+        raise Untranslatable("body: %s" % ast.unparse(stmts[0])[:80] if stmts else "empty body")
+
+    def guarded(self, tr, env, walk):
+        if tr.finalbody or tr.orelse or len(tr.handlers) != 1 or ast.unparse(tr.handlers[0].type) != "ZeroDivisionError" or tr.handlers[0].name:
+            raise Untranslatable("try statement other than try / except ZeroDivisionError")
+        saved, self.divisors = self.divisors, []
+        x = walk(tr.body)
+        ds, self.divisors = self.divisors, saved
+        if len(ds) != 1:
+            raise Untranslatable("%d divisions inside the guarded expression" % len(ds))
+        y = walk(tr.handlers[0].body)
+        return "(if %s = 0 then %s else %s)" % (ds[0], y, x)
+
+    def expr(self, node, env):
+        if isinstance(node, ast.Name):
+            if node.id in env:
+                return env[node.id]
+            raise Untranslatable("unknown name %s" % node.id)
+        if isinstance(node, ast.Constant) and isinstance(node.value, (int, float)) and not isinstance(node.value, bool) and node.value == int(node.value):
+            return "(%d : Rat)" % int(node.value)
+        if isinstance(node, ast.Attribute) and isinstance(node.value, ast.Name):
+            if node.value.id == "self":
+                if node.attr in ("_total_weight", "supply"):
+                    return self.value_of(node.attr, env)
+                raise Untranslatable("self.%s" % node.attr)
+            if node.value.id in env and node.attr in CHILD_FIELDS and env.get("$child:" + node.value.id):
+                return "%s.%s" % (env[node.value.id], CHILD_FIELDS[node.attr])
+            raise Untranslatable(ast.unparse(node))
+        if isinstance(node, ast.Call):
+            f = ast.unparse(node.func)
+            if f == "getattr" and len(node.args) == 2 and ast.unparse(node.args[1]) == "self._weight" and isinstance(node.args[0], ast.Name) \
+                    and env.get("$child:" + node.args[0].id):
+                return "%s.get a" % env[node.args[0].id]
+            if f == "len" and len(node.args) == 1 and ast.unparse(node.args[0]) in ("self.children", env.get("$children", "self.children")):
+                return "(cs.length : Rat)"
+            if f == "self._undefined_fitness" and not node.args:
+                return self.value_of("_undefined_fitness", env)
+            if f == "sum" and len(node.args) == 1 and isinstance(node.args[0], ast.GeneratorExp):
+                g = node.args[0]
+                if len(g.generators) != 1 or g.generators[0].ifs or not isinstance(g.generators[0].target, ast.Name) \
+                        or ast.unparse(g.generators[0].iter) not in ("self.children", env.get("$children", "self.children")):
+                    raise Untranslatable(ast.unparse(g))
+                v = g.generators[0].target.id
+                inner = dict(env, **{v: v, "$child:" + v: True})
+                return "(sumOf (fun %s => %s) cs)" % (v, self.expr(g.elt, inner))
+            raise Untranslatable(ast.unparse(node)[:80])
+        if isinstance(node, ast.BinOp):
+            op = {ast.Add: "+", ast.Sub: "-", ast.Mult: "*", ast.Div: "/"}.get(type(node.op))
+            if op is None:
+                raise Untranslatable(ast.dump(node.op))
+            l, r = self.expr(node.left, env), self.expr(node.right, env)
+            if op == "/":
+                self.divisors.append(r)
+            return "(%s %s %s)" % (l, op, r)
+        if isinstance(node, ast.IfExp) and isinstance(node.test, ast.Compare) and len(node.test.ops) == 1:
+            a, b = self.expr(node.test.left, env), self.expr(node.test.comparators[0], env)
+            c = {ast.Lt: "%s < %s" % (a, b), ast.Gt: "%s < %s" % (b, a), ast.LtE: "%s ≤ %s" % (a, b), ast.GtE: "%s ≤ %s" % (b, a)}.get(type(node.test.ops[0]))
+            if c is None:
+                raise Untranslatable(ast.unparse(node.test))
+            return "(if %s then %s else %s)" % (c, self.expr(node.body, env), self.expr(node.orelse, env))
+        raise Untranslatable(ast.unparse(node)[:80])
+
+    def shares(self):
+        """the demand setter: store the value, then give every child its share"""
+        stmts = self.prop("demand")  # fget
+        member = inspect.getattr_static(self.cls, "demand")
+        tree = ast.parse(textwrap.dedent(inspect.getsource(member.fset))).body[0]
+        stmts = [st for st in tree.body if not (isinstance(st, ast.Expr) and isinstance(st.value, ast.Constant))]
+        src = [ast.unparse(st) for st in stmts]
+        if len(stmts) != 3 or src[0] != "self._demand = value" or src[1] != "child_count = len(self.children)" or not isinstance(stmts[2], ast.For):
+            raise Untranslatable("setter statements: %s" % src[:3])
+        loop = stmts[2]
+        if loop.orelse or not isinstance(loop.target, ast.Name) or ast.unparse(loop.iter) != "self.children" or len(loop.body) != 1:
+            raise Untranslatable("loop: %s" % ast.unparse(loop)[:80])
+        v = loop.target.id
+        env = {"value": "D", "child_count": "(cs.length : Rat)", v: v, "$child:" + v: True}
+
+        def assign(body):
+            if len(body) != 1 or not isinstance(body[0], ast.Assign) or ast.unparse(body[0].targets[0]) != "%s.demand" % v:
+                raise Untranslatable("loop body: %s" % ast.unparse(body[0])[:80])
+            return self.expr(body[0].value, env)
+        st = loop.body[0]
+        share = self.guarded(st, env, assign) if isinstance(st, ast.Try) else assign([st])
+        return "cs.map (fun %s => %s)" % (v, share)
+
+    def stored_demand_read(self):
+        """the demand getter returns the stored value"""
+        stmts = self.prop("demand")
+        if [ast.unparse(st) for st in stmts] != ["return self._demand"]:
+            raise Untranslatable("demand getter")
+        return "true"
+
+    def init_demand(self):
+        tree = ast.parse(textwrap.dedent(inspect.getsource(self.cls.__init__))).body[0]
+        stmts = [ast.unparse(st) for st in tree.body if not isinstance(st, (ast.Assert, ast.Expr))]
+        want = ["self._demand = sum((child.demand for child in children))", "self.children = list(children)"]
+        rest = [x for x in stmts if x != "self._weight = weight"]
+        if rest != want:
+            raise Untranslatable("__init__: %s" % rest)
+        return "(sumOf (fun child => child.demand) cs)"
+
+
+def render_composite():
+    from cobald.composite.uniform import UniformComposite
+    from cobald.composite.weighted import WeightedComposite
+    out = ["/- GENERATED by harness/vh/translate.py from the source text of /repo (cobald/composite/uniform.py, weighted.py)",
+           "   — do not edit.  Regenerated on every run of the C07 check; the theorems `gen_*` of Props/C07.lean equate these",
+           "   definitions with the hand-written model. -/",
+           "import CobaldVerif.Model.Composite", "", "namespace Cobald.Gen.Composite", "open Cobald Cobald.Composite", ""]
+
+    def emit(name, sig, typ, thunk):
+        try:
+            out.append("def %s %s : %s :=\n  %s\n" % (name, sig, typ, thunk()))
+        except Untranslatable as e:
+            out.append("-- untranslatable (%s)\ndef %sUntranslatable : String := \"source outside the translated subset\"\n"
+                       % (str(e)[:100].replace("\n", " "), name))
+    for nm, cls, sig in (("uniform", UniformComposite, "(cs : List Child)"), ("weighted", WeightedComposite, "(a : Attr) (cs : List Child)")):
+        emit(nm + "Shares", sig + " (D : Rat)", "List Rat", lambda cls=cls: CompositeTr(cls).shares())
+        emit(nm + "ReadsStored", "", "Bool", lambda cls=cls: CompositeTr(cls).stored_demand_read())
+        emit(nm + "InitDemand", "(cs : List Child)", "Rat", lambda cls=cls: CompositeTr(cls).init_demand())
+        emit(nm + "Supply", "(cs : List Child)", "Rat", lambda cls=cls: CompositeTr(cls).value_of("supply", {}))
+        emit(nm + "Utilisation", sig, "Rat", lambda cls=cls: CompositeTr(cls).value_of("utilisation", {}))
+        emit(nm + "Allocation", sig, "Rat", lambda cls=cls: CompositeTr(cls).value_of("allocation", {}))
+    out += ["end Cobald.Gen.Composite", ""]
+    return "\n".join(out)
+
+
+# --------------------------------------------------------------------------- DemandSwitch / Stepwise (C08)
+REL_CONTROLLERS = os.path.join("CobaldVerif", "Generated", "SrcControllers.lean")
+
+
+def _nz(x):
+    """unparsed text without parentheses (their placement differs between Python versions)"""
+    return x.replace("(", "").replace(")", "")
+
+
+def _fn_body(fn):
+    tree = ast.parse(textwrap.dedent(inspect.getsource(fn))).body[0]
+    return [st for st in tree.body if not (isinstance(st, ast.Expr) and isinstance(st.value, ast.Constant))]
+
+
+def cmp_chain(test, ren, optional=()):
+    """`a <= b < c` -> conjunction; a comparison `x < h` against a name in `optional` (an upper bound that may be
+    +inf, `none` in the model) becomes `belowHigh x h = true`"""
+    if not isinstance(test, ast.Compare):
+        raise Untranslatable(ast.unparse(test))
+    terms = [test.left] + list(test.comparators)
+    parts = []
+    for l, op, r in zip(terms, test.ops, terms[1:]):
+        if isinstance(r, ast.Name) and r.id in optional:
+            if not isinstance(op, ast.Lt):
+                raise Untranslatable("comparison with the open upper bound: %s" % ast.unparse(test))
+            parts.append("belowHigh %s %s = true" % (expr(l, ren), ren[r.id]))
+            continue
+        parts.append(expr(ast.Compare(left=l, ops=[op], comparators=[r]), ren))
+    return " ∧ ".join(parts)
+
+
+def switch_select():
+    """DemandSwitch.regulate: start from the default, walk the (sorted) slaves, take every one whose
+    threshold satisfies the condition, regulate with the last one taken"""
+    from cobald.controller.switch import DemandSwitch
+    st = _fn_body(DemandSwitch.regulate)
+    if len(st) != 3 or ast.unparse(st[0]) != "chosen = self._default" or not isinstance(st[1], ast.For) \
+            or ast.unparse(st[2]) != "chosen.regulate(interval)":
+        raise Untranslatable("regulate: %s" % [ast.unparse(x)[:40] for x in st])
+    loop = st[1]
+    if _nz(ast.unparse(loop.target)) != "demand, slave" or ast.unparse(loop.iter) != "self._slaves" or loop.orelse or len(loop.body) != 1:
+        raise Untranslatable("loop header %s" % ast.unparse(loop)[:60])
+    br = loop.body[0]
+    if not (isinstance(br, ast.If) and not br.orelse and [ast.unparse(x) for x in br.body] == ["chosen = slave"]):
+        raise Untranslatable("loop body %s" % ast.unparse(br)[:60])
+    cond = cmp_chain(br.test, {"demand": "ts.1", "target_demand": "demand"})
+    return "sorted.foldl (fun chosen ts => if %s then ts.2 else chosen) dflt" % cond
+
+
+def switch_ctor():
+    """DemandSwitch.__init__: the slaves are kept sorted by threshold, and the default and every slave are
+    bound to the switch's own target, unconditionally"""
+    from cobald.controller.switch import DemandSwitch
+    src = [_nz(ast.unparse(x)) for x in _fn_body(DemandSwitch.__init__)]
+    for need in ("self._slaves = tuple(sorted(pairwise(slaves)))", "default.target = target",
+                 "for (_, slave) in self._slaves:\n    slave.target = target", "self._default = default"):
+        if _nz(need) not in src:
+            raise Untranslatable("constructor lacks `%s`" % need.replace("\n", " "))
+    if sum(1 for x in src if "_slaves =" in x) != 1 or sum(1 for x in src if ".target = " in x) != 2:
+        raise Untranslatable("constructor assigns slaves / targets elsewhere too")
+    return "true"
+
+
+def get_rule():
+    """RangeSelector.get_rule: the first range of the lookup table that contains the supply"""
+    from cobald.controller.stepwise import RangeSelector
+    st = _fn_body(RangeSelector.get_rule)
+    if len(st) != 1 or not isinstance(st[0], ast.For):
+        raise Untranslatable("get_rule is not one loop")
+    loop = st[0]
+    if _nz(ast.unparse(loop.target)) != "low, high, rule" or not (isinstance(loop.target, ast.Tuple) and isinstance(loop.target.elts[0], ast.Tuple)) or ast.unparse(loop.iter) != "self._lookup.items()" or loop.orelse or len(loop.body) != 1:
+        raise Untranslatable("loop header %s" % ast.unparse(loop)[:60])
+    br = loop.body[0]
+    if not (isinstance(br, ast.If) and not br.orelse and [ast.unparse(x) for x in br.body] == ["return rule"]):
+        raise Untranslatable("loop body %s" % ast.unparse(br)[:60])
+    cond = cmp_chain(br.test, {"low": "low", "high": "high", "supply": "supply"}, optional=("high",))
+    return cond
+
+
+def compile_lookup():
+    """RangeSelector._compile_lookup: rules sorted by threshold; consecutive bounds 0, t1, t2, ..., +inf paired with
+    base, r1, r2, ...; equal consecutive bounds are rejected.  Returns the first lower bound."""
+    from cobald.controller.stepwise import RangeSelector
+    st = _fn_body(RangeSelector._compile_lookup)
+    src = [ast.unparse(x) for x in st]
+    want_tail = ["lookup = {}", "(thresholds, _rules) = zip(*sorted(rules))", None, "return lookup"]
+    if len(st) != 5 or not isinstance(st[0], ast.If) or [_nz(x) for x in src[1:3]] != [_nz(x) for x in want_tail[:2]] or src[4] != "return lookup" or not isinstance(st[3], ast.For):
+        raise Untranslatable("_compile_lookup: %s" % [x[:30] for x in src])
+    m = ast.unparse(st[0])
+    if not m.startswith("if not rules:\n    return {(") or "float('inf')): base}" not in m:
+        raise Untranslatable("no-rules case: %s" % m[:80])
+    first_low_empty = st[0].body[0].value.keys[0].elts[0]
+    loop = st[3]
+    it = loop.iter
+    if _nz(ast.unparse(loop.target)) != "low, high, rule" or not (isinstance(it, ast.Call) and ast.unparse(it.func) == "zip" and len(it.args) == 3):
+        raise Untranslatable("loop header")
+    a0, a1, a2 = it.args
+    if not (ast.unparse(a1) == "chain(thresholds, [float('inf')])" and ast.unparse(a2) == "chain([base], _rules)"
+            and isinstance(a0, ast.Call) and ast.unparse(a0.func) == "chain" and len(a0.args) == 2 and ast.unparse(a0.args[1]) == "thresholds"
+            and isinstance(a0.args[0], ast.List) and len(a0.args[0].elts) == 1):
+        raise Untranslatable("zip arguments: %s" % ast.unparse(it)[:100])
+    first_low = a0.args[0].elts[0]
+    body_ = [ast.unparse(x) for x in loop.body]
+    if len(body_) != 2 or not body_[0].startswith("if low == high:\n    raise ValueError(") or body_[1] != "lookup[low, high] = rule":
+        raise Untranslatable("loop body %s" % body_)
+    if ast.unparse(first_low) != ast.unparse(first_low_empty):
+        raise Untranslatable("the two first lower bounds differ")
+    return expr(first_low, {})
+
+
+def stepwise_run():
+    """Stepwise.run: look the rule up by the target's supply, call it with (target, interval), write the result
+    to the target's demand unless it is None"""
+    from cobald.controller.stepwise import Stepwise
+    st = _fn_body(Stepwise.run)
+    loops = [x for x in st if isinstance(x, ast.While)]
+    if len(loops) != 1 or [_nz(ast.unparse(x)) for x in st if not isinstance(x, ast.While)] != ["target, interval = self.target, self.interval"]:
+        raise Untranslatable("run prologue")
+    body_ = [ast.unparse(x) for x in loops[0].body]
+    want = ["current_rule = self._selector.get_rule(target.supply)", "demand = current_rule(target, interval)",
+            "if demand is not None:\n    self.target.demand = demand", "await trio.sleep(interval)"]
+    if body_ != want:
+        raise Untranslatable("run loop: %s" % body_)
+    return "true"
+
+
+def render_controllers():
+    out = ["/- GENERATED by harness/vh/translate.py from the source text of /repo (cobald/controller/switch.py, stepwise.py)",
+           "   — do not edit.  Regenerated on every run of the C08 / C09 checks; the theorems `gen_*` of Props/C08.lean equate",
+           "   these definitions with the hand-written model. -/",
+           "import CobaldVerif.Model.Controllers", "", "namespace Cobald.Gen.Controllers", "open Cobald Cobald.Controllers", ""]
+
+    def emit(name, sig, typ, thunk, fmt="def %s %s : %s :=\n  %s\n"):
+        try:
+            out.append(fmt % (name, sig, typ, thunk()))
+        except Untranslatable as e:
+            out.append("-- untranslatable (%s)\ndef %sUntranslatable : String := \"source outside the translated subset\"\n"
+                       % (str(e)[:100].replace("\n", " "), name))
+    emit("switchSelect", "(dflt : CtlId) (sorted : List (Rat × CtlId)) (demand : Rat)", "CtlId", switch_select)
+    emit("switchCtorShape", "", "Bool", switch_ctor)
+    emit("getRule", "", "Lookup → Rat → Option RuleId", get_rule,
+         fmt="def %s %s : %s\n  | [], _ => none\n  | (low, high, rule) :: rest, supply => if %s then some rule else getRule rest supply\n")
+    emit("compileFirstLow", "", "Rat", compile_lookup)
+    emit("stepwiseRunShape", "", "Bool", stepwise_run)
+    out += ["end Cobald.Gen.Controllers", ""]
+    return "\n".join(out)
+
+
+# --------------------------------------------------------------------------- Standardiser (C06)
+REL_STANDARDISER = os.path.join("CobaldVerif", "Generated", "SrcStandardiser.lean")
+
+
+class StandardiserTr:
+    """`Standardiser._clamp_demand`, the demand setter / getter and the constructor's `enforce`s as Lean terms
+    over `p : Params` (minimum, maximum, granularity, backlog, surplus - the three limits and the two margins are
+    extended numbers), the target's supply `s : Rat`, the written value `v : Rat`.  Arithmetic of a finite
+    number with an extended one is `subFrom` / `addFin`."""
+    EXT = {"self.backlog": "p.backlog", "self.surplus": "p.surplus", "self.minimum": "p.min", "self.maximum": "p.max"}
+
+    def __init__(self):
+        from cobald.decorator.standardiser import Standardiser
+        self.cls = Standardiser
+
+    def ext(self, node, env):
+        """an expression of extended type"""
+        u = ast.unparse(node)
+        if u in self.EXT:
+            return self.EXT[u]
+        if isinstance(node, ast.Name) and node.id in env:
+            return env[node.id]
+        if isinstance(node, ast.BinOp) and isinstance(node.left, ast.Name) and env.get(node.left.id) == "s" and ast.unparse(node.right) in self.EXT:
+            f = {ast.Sub: "subFrom", ast.Add: "addFin"}.get(type(node.op))
+            if f:
+                return "(%s s %s)" % (f, self.EXT[ast.unparse(node.right)])
+        if isinstance(node, ast.Call) and ast.unparse(node.func) == "_clamp" and len(node.args) == 3:
+            return "(Gen.clamp %s %s %s)" % tuple(self.ext(a, env) for a in node.args)
+        raise Untranslatable("extended expression %s" % u[:60])
+
+    def clamp_demand(self):
+        st = _fn_body(self.cls._clamp_demand)
+        src = [ast.unparse(x) for x in st]
+        if len(st) != 5 or src[0] != "supply = self.target.supply" or not all(isinstance(x, ast.Assign) for x in st[:3]):
+            raise Untranslatable("_clamp_demand: %s" % [x[:30] for x in src])
+        env = {"supply": "s", "value": "(ERat.fin v)"}
+        for a in st[1:3]:
+            if len(a.targets) != 1 or not isinstance(a.targets[0], ast.Name):
+                raise Untranslatable(ast.unparse(a))
+            env[a.targets[0].id] = self.ext(a.value, env)
+        # the cast back to the type of `value`: whatever happens, the number returned is `by_limits`
+        if src[3] != "try:\n    converted = type(value)(by_limits)\nexcept (OverflowError, ValueError):\n    return by_limits" \
+                or src[4] != "return converted if converted == by_limits else by_limits":
+            raise Untranslatable("type-preserving cast: %s / %s" % (src[3][:60], src[4][:60]))
+        return env["by_limits"]
+
+    def setter(self):
+        fset = inspect.getattr_static(self.cls, "demand").fset
+        st = _fn_body(fset)
+        src = [ast.unparse(x) for x in st]
+        if len(st) != 2 or src[0] != "self._demand = self._clamp_demand(value)" or not isinstance(st[1], ast.If):
+            raise Untranslatable("setter: %s" % [x[:40] for x in src])
+        br = st[1]
+        if ast.unparse(br.test) != "self.granularity != 1" or len(br.body) != 1 or len(br.orelse) != 1:
+            raise Untranslatable("setter branch %s" % ast.unparse(br.test))
+        fw = {"self.target.demand = self._clamp_demand(_floor(value, self.granularity))": "clampDemand p s (Gen.floor v p.g)",
+              "self.target.demand = self._demand": "clampDemand p s v",           # (= what was stored one line above)
+              "self.target.demand = self._clamp_demand(value)": "clampDemand p s v"}
+        a, b = ast.unparse(br.body[0]), ast.unparse(br.orelse[0])
+        if a not in fw or b not in fw:
+            raise Untranslatable("forwarded values: %s / %s" % (a[:50], b[:50]))
+        return "if p.g ≠ 1 then %s else %s" % (fw[a], fw[b])
+
+    def getter(self):
+        fget = inspect.getattr_static(self.cls, "demand").fget
+        src = [ast.unparse(x) for x in _fn_body(fget)]
+        if src != ["if abs(self._demand - self.target.demand) >= self.granularity:\n    self._demand = self.target.demand", "return self._demand"]:
+            raise Untranslatable("getter: %s" % [x[:50] for x in src])
+        return "if farApart stored target p.g = true then (target, target) else (stored, stored)"
+
+    def enforced(self):
+        st = _fn_body(self.cls.__init__)
+        conds = []
+        table = {"minimum": "p.min", "maximum": "p.max", "surplus": "p.surplus", "backlog": "p.backlog"}
+        for x in st:
+            if isinstance(x, ast.Expr) and isinstance(x.value, ast.Call) and ast.unparse(x.value.func) == "enforce":
+                t = x.value.args[0]
+                if not (isinstance(t, ast.Compare) and len(t.ops) == 1):
+                    raise Untranslatable(ast.unparse(t))
+                l, r, op = t.left, t.comparators[0], type(t.ops[0])
+
+                def term(n, ext):
+                    if isinstance(n, ast.Name) and n.id in table:
+                        return table[n.id]
+                    if isinstance(n, ast.Name) and n.id == "granularity":
+                        return "p.g"
+                    if isinstance(n, ast.Constant) and n.value == 0:
+                        return "(ERat.fin 0)" if ext else "(0 : Rat)"
+                    raise Untranslatable(ast.unparse(n))
+                ext = any(isinstance(n, ast.Name) and n.id in table for n in (l, r))
+                a, b = term(l, ext), term(r, ext)
+                conds.append({ast.LtE: "%s ≤ %s" % (a, b), ast.Lt: "%s < %s" % (a, b), ast.Gt: "%s < %s" % (b, a), ast.GtE: "%s ≤ %s" % (b, a)}[op])
+        src = [ast.unparse(x) for x in st]
+        if "self._demand = target.demand" not in src:
+            raise Untranslatable("the stored demand does not start as the target's")
+        for k in ("minimum", "maximum", "granularity", "surplus", "backlog"):
+            if "self.%s = %s" % (k, k) not in src:
+                raise Untranslatable("parameter %s is not stored as given" % k)
+        if not conds:
+            raise Untranslatable("no enforce")
+        return " ∧ ".join(conds)
+
+
+def render_standardiser():
+    out = ["/- GENERATED by harness/vh/translate.py from the source text of /repo (cobald/decorator/standardiser.py)",
+           "   — do not edit.  Regenerated on every run of the C06 / C16 checks; the theorems `gen_*` of Props/C06.lean equate",
+           "   these definitions with the hand-written model. -/",
+           "import CobaldVerif.Model.Standardiser", "import CobaldVerif.Generated.Src", "",
+           "namespace Cobald.Gen.Standardiser", "open Cobald Cobald.ERat Cobald.Standardiser", ""]
+
+    def emit(name, sig, typ, thunk):
+        try:
+            out.append("def %s %s : %s :=\n  %s\n" % (name, sig, typ, thunk()))
+        except Untranslatable as e:
+            out.append("-- untranslatable (%s)\ndef %sUntranslatable : String := \"source outside the translated subset\"\n"
+                       % (str(e)[:100].replace("\n", " "), name))
+    tr = StandardiserTr()
+    emit("clampDemand", "(p : Params) (s v : Rat)", "ERat", tr.clamp_demand)
+    emit("stored", "(p : Params) (s v : Rat)", "ERat", lambda: (tr.setter(), "clampDemand p s v")[1])
+    emit("forwarded", "(p : Params) (s v : Rat)", "ERat", tr.setter)
+    emit("read", "(p : Params) (stored target : ERat)", "ERat × ERat", tr.getter)
+    emit("ok", "(p : Params)", "Prop", tr.enforced)
+    out += ["end Cobald.Gen.Standardiser", ""]
+    return "\n".join(out)
+
+
 def regenerate():
     """returns True if the generated text changed"""
-    return lean.write_generated(REL, render())
+    a = lean.write_generated(REL, render())
+    b = lean.write_generated(REL_COMPOSITE, render_composite())
+    c = lean.write_generated(REL_CONTROLLERS, render_controllers())
+    d = lean.write_generated(REL_STANDARDISER, render_standardiser())
+    return a or b or c or d
